@@ -180,6 +180,9 @@ func (g G) tamper(label string, m *MsgSpec) {
 		switch m.Binding {
 		case "post", "soap":
 			ops = append(common, "strip_sig", "drop_keyinfo", "foreign_keyinfo", "sigvalue_flip", "digest_flip", "empty_sigvalue", "post_deflate", "wrap", "sigvalue_flip")
+			if m.Binding == "soap" {
+				ops = append(ops, "soap_header_wrap", "soap_header_wrap")
+			}
 		default:
 			ops = append(common, "strip_sigparams", "sig_flip", "swap_sigalg", "foreign_sig", "dup_param", "truncate_query", "move-post", "empty-sig", "sig_flip", "dsa_forge", "body-override", "body-override")
 		}
@@ -216,6 +219,11 @@ func (g G) tamper(label string, m *MsgSpec) {
 			m.Tamper = append(m.Tamper, Tamper{Op: "wrap", A: g.intn(lab+".wa", 2), B: g.intn(lab+".wb", 2), S: g.pick(lab+".ws", "", "ProtocolBinding="+BindRedirect, "Destination=https://evil.example/SSO")})
 		case "resign-rogue":
 			m.Tamper = append(m.Tamper, Tamper{Op: "resign", A: g.pick2(lab+".rk", KeyRogue, KeySPRot, KeyIDPResp0), B: g.intn(lab+".rki", 2)})
+		case "soap_header_wrap":
+			m.Tamper = append(m.Tamper, Tamper{Op: "soap_header_wrap", A: g.intn(lab+".victim", 4)})
+			if m.Sign == "" {
+				m.Sign = "rsa-sha256"
+			}
 		case "strip_sig":
 			m.Tamper = append(m.Tamper, Tamper{Op: "strip_sig"})
 		case "drop_keyinfo":
